@@ -510,7 +510,8 @@ public:
   }
 
   void forget(const variable_vector_t &variables) override {
-    if (!(is_bottom() || is_top())) {
+    // even if all the packs are top the variables must leave them
+    if (!is_bottom()) {
       for (const variable_t &v : variables) {
         if (m_packs.contains(v)) {
           pack_t &pack = m_packs.get_equiv_class(v);
